@@ -220,6 +220,11 @@ pub fn special_trees() -> Vec<Tree> {
         vec![vec![1.0, 3.0, 2.0, 10.0]],
         vec![vec![0.0], vec![0.0, 0.0], vec![4.0, -4.0]],
         vec![vec![4.0, 6.0], vec![3.0, 7.0], vec![5.0]],
+        // chunk totals of opposite sign that cancel (exactly at offset 0), chunks of unequal length
+        vec![vec![1.0, 3.0], vec![-4.0]],
+        vec![vec![-2.0, -1.0], vec![0.0, 1.0, 2.0]],
+        vec![vec![5.0], vec![-1.0, -3.0, -1.0]],
+        vec![vec![-1.0, -3.0], vec![5.0], vec![-0.5, -0.5]],
     ];
     let mut out = Vec::new();
     for (scale, off) in [(1.0, 0.0), (1.0, 1e9), (1e-18, 0.0), (1e-20, 0.0), (1e12, 0.0), (0.5, -1e6)] {
